@@ -225,6 +225,22 @@ theorem C19_lifecycle_load_only (p : Params) :
   · rw [liveAfter_append, l1, d2]
   · rw [peakFrom_append, l1, d1]; rw [l1] at hp; omega
 
+/-- the same in any arena (`c n` bytes used for a request of `n`, whatever `c` is): what is released was requested with
+    the same size, so the arena's ledger is balanced too and returns to zero -/
+theorem C19_lifecycle_cost (c : Nat → Nat) (p : Params) :
+    balanced 0 (costEvents c (lifeEvents p)) = true ∧ liveAfter 0 (costEvents c (lifeEvents p)) = 0 := by
+  obtain ⟨b1, _, l1⟩ := cost_read_convolve_run c p ((p.aux.map fun a => c a.vallen).sum)
+    (fun a ha => le_sum_of_mem _ _ (List.mem_map_of_mem (f := fun a => c a.vallen) ha))
+  obtain ⟨_, d2, d3⟩ := cost_destroy_run c p (convDims p)
+  unfold lifeEvents
+  rw [costEvents_append]
+  refine ⟨?_, ?_⟩
+  · rw [balanced_append, b1, l1, d3]; rfl
+  · rw [liveAfter_append, l1, d2]
+
+example : liveAfter 0 (arenaEvents 16 16 (lifeEvents C19.exampleParams)) = 0 :=
+  (C19_lifecycle_cost (fun n => alignUp 16 n + 16) C19.exampleParams).2
+
 example : (destroyEvents C19.exampleParams (convDims C19.exampleParams)).length = 22 ∧
     freeBytes (destroyEvents C19.exampleParams (convDims C19.exampleParams)) = 3946 := by decide
 
